@@ -150,7 +150,7 @@ impl SubCheckT for Map {
     const NAME: &'static str = "marginal_map";
     const RULE: &'static str = "random function over <=6 variables under a random order; query set = any subset in any order (empty, all, variables outside the support); weights k/8 in [0,1], normalised on non-query variables, arbitrary on query variables: marginal_map and bb::<RealSemiring> return exactly the maximum over all query assignments of the weighted count restricted to the assignment (exhaustive enumeration, exact dyadic arithmetic), the returned model assigns every query variable and attains that value (any maximiser accepted on ties). Non-trivial: >=2 query variables in the support and >=2 distinct values among query assignments";
     fn cases(tier: Tier) -> u32 {
-        tier.pick(4000, 150_000)
+        tier.pick(30_000, 300_000)
     }
     fn strategy(_tier: Tier) -> BoxedStrategy<MapCase> {
         (
@@ -335,7 +335,7 @@ impl SubCheckT for Meu {
     const NAME: &'static str = "meu";
     const RULE: &'static str = "random function over <=6 variables; variables are decisions (unit weight), chance (p,0)/(1-p,0) or utility-bearing (indicator style (1,0)/(1,u) or probabilistic (p,p*u0)/(1-p,(1-p)*u1), u>=0), the order being built so that every utility-bearing variable follows all decision variables; meu and bb::<ExpectedUtility> return exactly the maximum over decision assignments of the expected-utility component of the order-aware unsmoothed count of the restricted function (exhaustive, exact dyadics), with a complete decision assignment that attains it. Non-trivial: >=2 decision variables in the support and >=2 distinct values";
     fn cases(tier: Tier) -> u32 {
-        tier.pick(4000, 150_000)
+        tier.pick(30_000, 300_000)
     }
     fn strategy(_tier: Tier) -> BoxedStrategy<MeuCase> {
         (
